@@ -437,9 +437,12 @@ impl Iterator for ClosestBucketsIter {
                     self.state = ClosestBucketsIterState::ZoomIn(i);
                     Some(i)
                 } else {
+                    // Bucket 0 has already been yielded if we arrived at it while
+                    // zooming in (or started there): do not yield it a second time.
+                    let visited_zero = i.get() == 0;
                     let i = BucketIndex(0);
                     self.state = ClosestBucketsIterState::ZoomOut(i);
-                    Some(i)
+                    if visited_zero { self.next() } else { Some(i) }
                 }
             }
             ClosestBucketsIterState::ZoomOut(i) => {
